@@ -5,8 +5,8 @@ from . import base
 ID = 'C01'
 LEVEL = 'exploration'
 PLAN = {
-    'quick': [('synth', 24000), ('synth_cli', 6000), ('synth_reuse', 5000), ('synth_repair', 3000), ('synth_writeback', 4000), ('shipped', 960)],
-    'thorough': [('synth', 900000), ('synth_cli', 200000), ('synth_reuse', 200000), ('synth_repair', 100000), ('synth_writeback', 150000), ('shipped', 40000)],
+    'quick': [('synth', 24000), ('synth_cli', 6000), ('synth_reuse', 5000), ('synth_repair', 3000), ('synth_supply', 3000), ('synth_writeback', 4000), ('shipped', 960)],
+    'thorough': [('synth', 900000), ('synth_cli', 200000), ('synth_reuse', 200000), ('synth_repair', 100000), ('synth_supply', 100000), ('synth_writeback', 150000), ('shipped', 40000)],
 }
 DEADLINE = {'quick': 200, 'thorough': 3300}
 PROBES = ['second-solve-on-written-back-file', 'store-reused-after-edit', 'line-reattempted', 'refusal-with-waiters-outstanding', 'abort-after-prompts',
@@ -82,12 +82,26 @@ def evaluate(case, engine, acc=None):
         if acc is not None:
             acc.count('fault:solve-again-after-repaired-input')
             acc.count('probe:solve-again-after-repaired-input')
+    elif engine == 'synth_supply':
+        # solve() fails for want of inputs, the caller supplies what was named, solve() again on the same Solver
+        run, case = simrun.execute_supply(case, case.get('reuse_seed', 0))
+        if run is None:
+            if acc is not None:
+                acc.count('outcome:no-missing-input-failure')
+            return []
+        if acc is not None:
+            acc.count('fault:solve-again-after-supplying-inputs')
+            acc.count('probe:solve-again-after-supplying-inputs')
     elif engine == 'synth_cli':
         run = simrun.execute_cli(case, case.get('cli'))
     else:
         run = simrun.execute(case)
     r1 = simrun.model_for(case, run)
     fs = [f for f in simrun.judge(case, run, r1) if f['property'] == ID]
+    if engine == 'synth_supply':
+        # what a second solve() reports when it FAILS is not defined well enough to be judged (lines of forms loaded on demand
+        # keep waiting for inputs that have arrived meanwhile); a claim of success is
+        fs = [f for f in fs if f['oracle'] == 'C01.a']
     if engine == 'synth_cli' and run.outcome == 'unknown':
         fs.append(simrun.F(ID, 'C01.cli', 'no-verdict', 'habutax solve returned without printing a verdict'))
     if engine == 'synth_cli' and run.outcome == 'failed' and r1.verdict == 'failed':
@@ -132,6 +146,9 @@ def run_one(engine, seed, acc, tier):
     if engine == 'synth_cli':
         case['cli'] = cli_script(case, seed)
     if engine == 'synth_reuse':
+        case['reuse_seed'] = seed
+    if engine == 'synth_supply':
+        case = gen.gen_case(seed, force_faults=r0.pick([['missing'], ['missing'], ['missing', 'notimpl'], ['missing', 'dup']]))
         case['reuse_seed'] = seed
     if engine == 'synth_repair':
         case = gen.gen_case(seed, force_faults=r0.pick([['corrupt'], ['corrupt'], ['corrupt', 'notimpl'], ['corrupt', 'missing']]))
